@@ -6,16 +6,29 @@ META = {
         "tdb_data_size is a multiple of the channel block size (keys address the device in channel blocks, so nothing else is representable); geometry scaled: undo block 48 bytes, channel block 16/48 bytes",
         "device bytes carry position tags instead of symbolic data (the undo manager never inspects data)",
         "ext2fs_get_mem/ext2fs_free_mem replaced by pointer-assignment equivalents (planned hook H3, done in the harness)",
+        "setup_tdb_*: getenv/profile_get_string/access/unlink/strdup/malloc/free/basename/sprintf(%s only) and the two set_undo_io_* "
+        "entry points are recording stubs (harness/C12/setup_tdb.c); strings are 0..5 symbolic characters (plus the built-in "
+        "/var/lib/e2fsprogs), device paths do not end in '/'; allocation failure IS injected there (ALLOCFAIL queries) for every tool",
+        "chanops: both channels below the undo manager are recording stubs with one injected failure per query",
     ],
     "outside": [
         "misc/e2undo.c:main (validation before the first write, -n, -f, the forced fsck after an unfinished run): monolithic, needs a hook; its key walk is restated as the reference reader of the capture harness",
         "re-open followed by further recording is covered as re-open (reopen harness) + capture step from the invariant the re-open establishes; the direct follow-up-write queries (FOLLOWUP*) are thorough-tier only and had no verdict within 150 s",
         "chains with a non-zero fs offset: undo_open() validates the superblock before the tool sets the offset, so the tools refuse the second run (fails safe; observed natively)",
-        "block size changes between captures (undo_set_blksize: key fsblk is in units of the block size at capture time, the header records only the last one)",
+        "block size changes between captures: undo_set_blksize itself is decided by chanops_setblk (the undo block size is frozen by the "
+        "first capture or the tdb_data_size option); what stays outside is the HISTORY effect: key fsblk is in units of the channel block "
+        "size at capture time while the header records only the last one, and a channel block size that does not divide the frozen "
+        "undo block size (first capture at 1 KiB, later writes at 4 KiB) -- no tool run was found that does this (only mke2fs writes "
+        "the superblock through set_blksize(1024)+write_blk64, and it fixes tdb_data_size by option first)",
         "keys shortened by the device end that already exist before the step (and their extension after the device grew)",
         "the extent limit is exercised at the scaled values 2 and 3 (hook E2FSPROGS_VERIF_UNDO_MAX_EXTENT_BLOCKS), with the current key exactly at the limit; the real value 512 only enters as the same symbolic comparison",
         "crc VALUES of keys (the crc-chain check is a thorough-tier query only) and of course crc32c itself",
-        "tool call sites passing -z; undo_open/undo_close/undo_set_option string parsing",
+        "tool call sites: the five *_setup_tdb functions are decided by setup_tdb_*; that the caller runs them before the filesystem is opened and "
+        "hands the resulting manager to every open is decided for e2fsck (e2fsck_main_undo), resize2fs (main_undo_resize) and debugfs "
+        "(debugfs_open_undo), but NOT asserted for mke2fs main() (C13 main_mke2fs encodes the call without recording the manager) and "
+        "tune2fs main() (close + retry_open with the new manager; no main harness exists); e2undo_setup_tdb; a non-writable "
+        "default undo directory silently disabling undo for tune2fs -I / mke2fs force_undo is the documented design, not checked as a fault",
+        "undo_open/undo_set_option string parsing, undo_flush, undo_get_stats",
     ],
 }
 OPS = {"WRITE": 1, "WRITE_BYTE": 2, "ZEROOUT": 3, "DISCARD": 4}
@@ -156,6 +169,51 @@ def _e2fsck_main_undo():
 HARNESSES += _e2fsck_main_undo()
 HARNESSES += _e2undo("C12")   # the real main() of misc/e2undo.c (sources in harness/E2UNDO)
 
+# ---- hx wave: the tools' -z call sites (setup_tdb) and the remaining undo_io.c channel operations (chanops)
+TOOLS = {"mke2fs": 1, "tune2fs": 2, "resize2fs": 3, "debugfs": 4, "e2fsck": 5}
+SETUP_FUNCS = {1: "mke2fs_setup_tdb", 2: "tune2fs_setup_tdb", 3: "resize2fs_setup_tdb", 4: "debugfs_setup_tdb", 5: "e2fsck_setup_tdb"}
+def setup_cfgs(tool):
+    c = [dict(TOOL=tool, ZF=2, ENVSET=1), dict(TOOL=tool, ZF=1, ENVSET=1), dict(TOOL=tool, ZF=1, ENVSET=0)]
+    # allocation failure while the name is built (strdup / malloc return NULL) must be reported, not end in a run without undo.
+    # (tune2fs_setup_tdb returned 0 here on the pinned tree: repaired by fix: 86bcb965, see known_findings.txt)
+    c += [dict(TOOL=tool, ZF=1, ENVSET=1, ALLOCFAIL=1), dict(TOOL=tool, ZF=1, ENVSET=1, ALLOCFAIL=2)]
+    if tool == 1:
+        c.append(dict(TOOL=tool, ZF=0, ENVSET=1))     # mke2fs alone calls it with undo_file == NULL (should_do_undo)
+    return c
+SETUP_UNWINDSET = ["strlen.0:21", "strcmp.0:21"]
+for _t, _n in sorted(TOOLS.items(), key=lambda kv: kv[1]):
+    HARNESSES.append(dict(name="setup_tdb_" + _t, src="setup_tdb.c", funcs=[SETUP_FUNCS[_n]],
+         configs=setup_cfgs(_n), unwind=50, unwindset=SETUP_UNWINDSET, backends=["default", "kissat"], cap_quick=300,
+         bound="one call; undo directory string (environment or profile) of 0..5 symbolic characters or the built-in default, device "
+               "path of 1..5 symbolic characters not ending in '/', -z argument NULL / empty / 1..2 symbolic characters; access, "
+               "unlink (ok / ENOENT / EACCES) and both set_undo_io_* calls fail symbolically"))
+
+CHANOPS_BOUND = ("one call; set_blksize: tdb_data_size < 2^32, tdb_written -1/0/1, any int block size, backing failure symbolic; read: any "
+           "block/count; close: 0..2 keys in the current key block, reference count 1..2, header state word symbolic, one injected "
+           "failure per query (key block / header / superblock copy write, flush, device close, superblock read)")
+for _n, _f, _c in (("chanops_setblk", ["undo_set_blksize"], [dict(OP=1)]),
+                   ("chanops_read", ["undo_read_blk64", "undo_read_blk"], [dict(OP=2, READ32=None), dict(OP=2)]),
+                   ("chanops_close", ["undo_close", "write_undo_indexes"],
+                    [dict(OP=3, FAIL=f) for f in (0, 1, 2, 3, 4, 5, 6)] + [dict(OP=3, FAIL=0, SIMUNF=None)])):
+    HARNESSES.append(dict(name=_n, src="chanops.c", funcs=_f, configs=_c, unwind=10, backends=["default", "kissat"],
+                          cap_quick=300, bound=CHANOPS_BOUND))
+
+HARNESSES.append(dict(name="main_undo_resize", src="main_undo_resize.c",
+     extra_src=["lib/ext2fs/blknum.c"],
+     funcs=["vf_real_main", "resize2fs_setup_tdb", "vf_getopt"],
+     configs=[{"ARGS": a} for a in (13, 14, 4, 10)],
+     unwind=8, unwindset=["vf_getopt.0:16", "vf_real_main.0:8", "vf_real_main.1:3"],
+     backends=["default", "kissat"], cap_quick=300,
+     bound="argv: {-z u d}, {-f -z u d 100}, {-P -z u d} (+ control {d}); mount flags, file type, raw open/fstat/sync failures and "
+           "failures of both set_undo_io_* calls symbolic; the run is followed up to the first ext2fs_open2() (which fails) / exit"))
+
+HARNESSES.append(dict(name="debugfs_open_undo", src="debugfs_open_undo.c",
+     funcs=["open_filesystem", "debugfs_setup_tdb"],
+     configs=[{"UNDO": 1}, {"UNDO": 0}], unwind=6,
+     backends=["default", "kissat"], cap_quick=300,
+     bound="one open_filesystem() call: open flags, catastrophic, superblock/blocksize symbolic, no data file, undo file 'u' or none; "
+           "ext2fs_open fails / asks for the checksum retry / succeeds, bitmaps read and both set_undo_io_* calls fail symbolically"))
+
 MANIFEST = {
     "text": "Bounded-exhaustive inductive step on the undo manager: from every undo state satisfying the stated invariant "
             "(block map, current key block, cursor, device length symbolic) one write / write_byte / zeroout / discard with "
@@ -163,7 +221,14 @@ MANIFEST = {
             "reader modelled on e2undo's loader and must restore, for an arbitrary byte, exactly the pre-operation content "
             "exactly once (first write wins), leave earlier records untouched and leave the cursor where a reader of the file "
             "ends. write_undo_indexes is compared field by field with the file format for all inputs. Re-open, e2undo's "
-            "own validation and multi-tool chains are outside.",
+            "own validation and multi-tool chains are outside. setup_tdb_{mke2fs,tune2fs,resize2fs,debugfs,e2fsck}: one call of each "
+            "tool's real undo set-up function with symbolic strings and failures: -z FILE stacks the undo manager on the tool's "
+            "manager and records to exactly FILE without removing it; otherwise <dir>/<tool>-<basename(device)>.e2undo is built in "
+            "a large-enough buffer, removed, then used; 'none'/empty/unwritable directory disables; every failing step is returned. "
+            "chanops: undo_set_blksize freezes the undo block size at the first capture, undo_read_blk64/undo_read_blk are pure "
+            "pass-through, undo_close writes key block, header (FINISHED) and superblock copy and flushes before closing, closes "
+            "both channels once and returns index errors. main_undo_resize / debugfs_open_undo: resize2fs main() and debugfs "
+            "open_filesystem() hand undo_io_manager to every filesystem open after a complete undo set-up and exit when it fails.",
     "note": "Trusted: CBMC's C semantics, the two channel models, the set model of the block map, the chaining crc stub, "
             "the scaled geometry (48-byte undo blocks, 2 keys per key block). Two queries fail on the current tree: "
             "capture[..OFFMODE=2,OFF_CARRY..] (known finding: offsets that are not a multiple of tdb_data_size shift the "
